@@ -2,6 +2,35 @@
 // the GraphQL dialect of DESIGN.md Appendix A.1. It is written from the
 // grammar, works on bytes, and produces the neutral tree (package nast) with
 // byte spans. It imports nothing from github.com/graphql-go/graphql.
+//
+//	Parse(src)        (*nast.Document, *Error)   a Document (Definition+)
+//	ParseValue(src)   (nast.Node, *Error)        a lone Value (variables allowed) up to the end of input
+//	Tokens(src)       ([]Token, *Error)          the token stream, EOF token last
+//	LineCol(src, off) line, byte column, code-point column (1-based; LF, CR, CRLF)
+//	Undefined(src)    the lexical forms the edition leaves undefined (don't-care for accept/reject)
+//	BlockStringValue  the specification's algorithm of the same name
+//
+// Spans: every node spans from the start of its first token to the end of its
+// last token (a definition with a description starts at the description; a
+// NonNull type spans the inner type and the `!`; the Document spans first
+// token .. last token).
+//
+// Errors (for C18): the recogniser is LL(1) and consumes a token only when the
+// grammar allows it there, so Error.Pos / TokStart / TokEnd / TokIndex name the
+// FIRST token that cannot extend a viable prefix (e.g. `}` in `{ a( }`; the
+// second string in `"d" "e" type T {}`; `schema` in `"d" schema {...}`; the
+// EOF position len(src) when the input ends early, with TokStart == TokEnd).
+// Lexing is lazy with respect to errors: a malformed lexeme is reported only
+// when the parser needs it as lookahead, so an earlier offending token wins.
+// For lexical errors Pos is the offending character (len(src) at end of
+// input) and [TokStart,TokEnd) is the malformed lexeme from its first
+// character through the offending character: an unterminated string runs from
+// the opening quote to the line terminator / EOF; a bad escape to the
+// character after the backslash (for \u: the first non-hexadecimal
+// character); a bad number to the first character that cannot continue it
+// (`01` -> the 1, `1.` / `1e` / `-` -> the character after); a lone `.` or
+// `..` is its own lexeme; a control character inside a comment is reported
+// with the lexeme starting at the `#`.
 package syntax
 
 import (
